@@ -120,6 +120,9 @@ def evalBody : List Char → Option (List Char × List Char)
   | [] => none
   | '"' :: '"' :: '"' :: rest => some ([], rest)
   | '\\' :: [] => none
+  -- backslash-newline is a line continuation; the source line ends were normalised to `\n` before
+  | '\\' :: '\r' :: '\n' :: rest => evalBody rest
+  | '\\' :: '\r' :: rest => evalBody rest
   | '\\' :: e :: rest =>
     if e == '\n' then evalBody rest                                    -- line continuation
     else if e == '\\' || e == '\'' || e == '"' then (evalBody rest).map fun (v, r) => (e :: v, r)
